@@ -34,7 +34,7 @@ func decodeFormat6(data []byte, code2rune func(c int) rune) (Subtable, error) {
 		data = data[:10+2*count]
 	}
 
-	if len(data) != 10+2*count {
+	if len(data) != 10+2*count || firstCode+count > 0x10000 {
 		return nil, errMalformedSubtable
 	}
 	data = data[10:]
